@@ -11,7 +11,7 @@ import (
 func init() {
 	register(&Check{
 		ID: "C05", Level: "exploration", QuickSecs: 150, ThoroughSecs: 1500,
-		Rule:        "skeletons over {'a','b',#{},&{},!{}} x {?,*,+,&,!} x seq/choice (arity<=3) up to N nodes (quick 5, thorough 6) under a rule-level action, plus one label+action decoration per node for N<=3 and a rule call variant; plus 18 left-recursive grammars (-support-left-recursion, with and without -optimize-parser; state blocks in the base alternative, in the operand and before the recursion; inputs up to length 4); every #{} appends its id to a string value (shallow copy), to a Cloner list mutated IN PLACE and to globalStore; action and predicate blocks attempt the same mutations (two scripts: all blocks return normally / all blocks also return an error); every block snapshots state and globalStore. Inputs over {a,b} up to L=3, InitState on/off, 2 generation flag sets. Every snapshot and the final store are compared with the reference (immutable store threaded through the evaluation; failing expression = store unchanged; &/! always restore; block-local changes dropped; globalStore append-only). The pool shim additionally checks the pool discipline (no double Put, no non-empty map from Get). Non-trivial = a state change was followed by a failure of an enclosing expression (reference backtracked after a #{} ran). Plus a rule-cycle family (three rules calling each other in a ring, ONE #{} block at every position of the ring, a lookahead predicate - & and !, over a rule alone and over a rule followed by a terminal - over every rule placed in every rule, every rule order; 972 grammars), left-recursive rules evaluated a second time at the same offset (finding D33), and the cross family (cross.go: every body with a #{} block, 16 flag sets).",
+		Rule:        "skeletons over {'a','b',#{},&{},!{}} x {?,*,+,&,!} x seq/choice (arity<=3) up to N nodes (quick 5, thorough 6) under a rule-level action, plus one label+action decoration per node for N<=3 and a rule call variant; plus 18 left-recursive grammars (-support-left-recursion, with and without -optimize-parser; state blocks in the base alternative, in the operand and before the recursion; inputs up to length 4); every #{} appends its id to a string value (shallow copy), to a Cloner list mutated IN PLACE and to globalStore; action and predicate blocks attempt the same mutations (two scripts: all blocks return normally / all blocks also return an error); every block snapshots state and globalStore. Inputs over {a,b} up to L=3, InitState on/off, 2 generation flag sets. Every snapshot and the final store are compared with the reference (immutable store threaded through the evaluation; failing expression = store unchanged; &/! always restore; block-local changes dropped; globalStore append-only). The pool shim additionally checks the pool discipline (no double Put, no non-empty map from Get). Non-trivial = a state change was followed by a failure of an enclosing expression (reference backtracked after a #{} ran). Plus a rule-cycle family (three rules calling each other in a ring, ONE #{} block at every position of the ring, a lookahead predicate - & and !, over a rule alone and over a rule followed by a terminal - over every rule placed in every rule, every rule order; 972 grammars), left-recursive rules evaluated a second time at the same offset (finding D33), a stacked-recovery family (a throw under two or three recovery operators for the same label, every recovery expression failing / failing after a state change / matching / matching after a state change / matching empty, followed by a probe, by nested savepoints or inside a loop; 450 grammars), and the cross family (cross.go: every body with a #{} block, 16 flag sets).",
 		Assumptions: []string{"E1 loader", "position/text seen by non-action blocks are C02's concern and are masked here"},
 		Run:         runC05,
 	})
@@ -103,6 +103,54 @@ func runC05(c *ShardCtx) {
 			fam := &family{gens: []core.Gen{{LeftRec: true}, {LeftRec: true, Optimize: true}}, inputs: peg.Inputs([]string{"a", "b"}, 4), opts: opts,
 				scripts: []map[int]*rtapi.Block{mkScript(g, false), mkScript(g, true)}, nontrivial: nontriv, cmp: core.CmpOpts{EventKey: stateKey, SkipNoMatch: true}, confEvery: 5, confQuota: 1}
 			runGrammar(c, g, fam)
+		}
+	}
+	// stacked recovery operators: a throw under two or three recovery operators for the SAME label
+	// (the runtime tries them innermost first, "like the alternatives of a choice"); every recovery
+	// expression fails, fails after a state change, matches, matches after a state change or
+	// matches empty; a state change in front of the throw; afterwards a probe, a failing
+	// continuation with a second alternative (nested savepoints after the throw), or a loop
+	{
+		lit := peg.Lit
+		st := func() *peg.Expr { return peg.StateCode(0) }
+		recs := []func() *peg.Expr{
+			func() *peg.Expr { return lit("b") }, func() *peg.Expr { return peg.Seq(st(), lit("b")) },
+			func() *peg.Expr { return lit("a") }, func() *peg.Expr { return peg.Seq(st(), lit("a")) }, func() *peg.Expr { return lit("") },
+		}
+		guard := func() *peg.Expr { return peg.Seq(peg.Opt(lit("a")), st(), peg.Throw("l")) }
+		tops := []func(x *peg.Expr) *peg.Expr{
+			func(x *peg.Expr) *peg.Expr { return peg.Seq(st(), x, peg.AndCode(0), peg.Star(peg.Any())) },
+			func(x *peg.Expr) *peg.Expr {
+				return peg.Seq(peg.Choice(peg.Seq(st(), x, lit("q")), peg.Seq(st(), peg.Opt(peg.Seq(st(), lit("a"), lit("q"))), peg.Opt(lit("a")))), peg.AndCode(0), peg.Star(peg.Any()))
+			},
+			func(x *peg.Expr) *peg.Expr {
+				return peg.Seq(peg.Star(peg.Choice(peg.Seq(x, lit("q")), peg.Seq(st(), lit("a")))), peg.AndCode(0), peg.Star(peg.Any()))
+			},
+		}
+		for depth := 2; depth <= 3; depth++ {
+			total := 1
+			for i := 0; i < depth; i++ {
+				total *= len(recs)
+			}
+			for code := 0; code < total; code++ {
+				for ti, top := range tops {
+					idx++
+					if !c.Mine(idx) {
+						continue
+					}
+					if c.Expired("stacked recovery family") {
+						return
+					}
+					x := guard()
+					k := code
+					for i := 0; i < depth; i++ {
+						x = peg.Recover(x, recs[k%len(recs)](), "l")
+						k /= len(recs)
+					}
+					_ = ti
+					run(&peg.Grammar{Rules: []*peg.Rule{{Name: "S", Expr: peg.Action(0, top(x))}}})
+				}
+			}
 		}
 	}
 	// rule cycles: three rules calling each other in a ring (behind a terminal), ONE #{} block at
